@@ -336,7 +336,7 @@ class InterpStmts:
         if isinstance(v, SV) and v.kind.tag in ("set", "dict", "list"):
             if v.origin is not None and v.origin != ("var", fid, name):
                 return st.setvar(name, Alias(v.origin, v.kind), fid)
-            return st.setvar(name, SV(v.kind, v.tree, ("var", fid, name)), fid)
+            return st.setvar(name, SV(v.kind, v.tree, ("var", fid, name), None, v.meta), fid)
         if isinstance(v, (list, set, dict)) and not v:
             # empty literal: its kind comes from the contract's `vars` table (or stays untyped until then)
             info = self.frame_func.get(fid)
